@@ -331,6 +331,10 @@ def _lowered(py, fn, e: ast.AST, depth=0) -> bool:
                 _VISITING.discard(key)
     if isinstance(e, ast.BinOp) and isinstance(e.op, ast.Add):
         return _lowered(py, fn, e.left, depth + 1) and _lowered(py, fn, e.right, depth + 1)
+    if isinstance(e, ast.IfExp):
+        return _lowered(py, fn, e.body, depth + 1) and _lowered(py, fn, e.orelse, depth + 1)
+    if isinstance(e, ast.BoolOp):        # `a or "public"`: one of its operands
+        return all(_lowered(py, fn, v, depth + 1) for v in e.values)
     if isinstance(e, (ast.Tuple, ast.List, ast.Set)) and e.elts:
         # a literal table (possibly of rows): as lower-case as its string constants; non-string members (compiled patterns,
         # numbers) do not take part in keyword comparisons
@@ -820,6 +824,24 @@ def r9_kind_suffix(ctx, rep):
            "`(?P<initial>.*)_` is greedy: for `1_c_int` the value becomes `1_c` and the kind `int`, so the enumerator is rejected "
            "as non-integer (the whole file is dropped) and initial values are shown with a piece of the kind name",
            py.nloc(node), witness=None if ok else "1_c_int")
+    # (b) recognition, as a language inclusion: every signed-int-literal-constant with a kind parameter (R708: [sign] digit-string
+    # _ kind-param, kind-param a digit-string or a name) is accepted by KIND_SUFFIX_RE the way it is applied (`.match`); a literal
+    # that is not accepted goes to int() unchanged - `-1_c_int` raises and the file is dropped, `5_4` is read as 54
+    rx = ctx.rx
+    rks = py.func("sourceform.remove_kind_suffix")
+    how = {c.func.attr for c in py.walk_calls(rks) if isinstance(c.func, ast.Attribute) and c.func.attr in ("match", "fullmatch", "search")}
+    if len(how) != 1:
+        raise AnalysisError(f"remove_kind_suffix: expected one way of applying the pattern, found {sorted(how)}")
+    lang = {"match": rx.match_lang, "fullmatch": rx.full, "search": rx.search_lang}[how.pop()](pat, flags)
+    ref = rx.full(r"[+-]?[0-9]+_([0-9]+|[A-Za-z][A-Za-z0-9_]*)", 0)
+    try:
+        w = rx.subset_witness(ref, lang)
+    except rx.Unsupported as e_:
+        raise AnalysisError(f"KIND_SUFFIX_RE not understood: {e_}")
+    rep.ob("KIND_SUFFIX_RE recognises every signed integer literal with a kind parameter", w is None,
+           "[sign] digits _ (digits | name) is included in what the pattern accepts" if w is None else
+           f"`{w}` is an integer literal with a kind parameter but the pattern does not accept it: the text reaches int() with its "
+           f"suffix (a `ValueError` that drops the file, or - for `5_4` - the value 54)", py.nloc(node), witness=w)
 
 
 def r11_two_word_types(ctx, rep):
